@@ -20,6 +20,9 @@ func init() { core.Register(c19{}) }
 
 func (c19) ID() string { return "C19" }
 
+// EvalFeatures names the counters of judged executions.
+func (c19) EvalFeatures() []string { return []string{"values", "conversion-error-cases"} }
+
 func (c19) Cases(tier string) int {
 	if tier == "thorough" {
 		return 200000
